@@ -7,6 +7,7 @@ import GenlmModel.Proofs.EarleyQ
 import GenlmModel.Proofs.EarleyNext
 import GenlmModel.Proofs.LimPrefix
 import GenlmModel.Proofs.EarleyRescaled
+import GenlmModel.Proofs.EndToEndLM
 /-! # C04 — grammar language models are the exact left-to-right factorisation -/
 namespace Genlm.Props.C04
 alias normalize_sums_to_one := Genlm.normalize_sums_to_one
@@ -53,4 +54,16 @@ alias rescaled_logp_parts := Genlm.earleyRescaled_logp
 /-- why long contexts do not underflow: with the code's coefficients column k+1 holds the CONDITIONAL weight -/
 alias rescaled_column_holds_conditional := Genlm.earleyRescaled_column_value
 alias rescaled_coefficient_closed_form := Genlm.rescaleChoice_closed_form
+
+/-! ## END TO END over ℝ≥0∞: the weighted language models as the code runs them -/
+/-- `CKYLM`: `cfg.cnf.prefix_grammar.cnf` parsed by incremental CKY computes the prefix weight `pw` … -/
+alias cky_lm_computes_prefix_weight := Genlm.ckyPfgL_call_E10
+/-- … for ANY oracle that does: conditionals = ratios of prefix weights, sum to one, EOS gets weight(c)/pw(c), and the product
+along x·EOS is weight(x) / total weight -/
+alias lm_end_to_end := Genlm.lm_end_to_end
+alias lm_end_to_end_real := Genlm.lm_end_to_end_real
+alias cky_lm_end_to_end := Genlm.cky_lm_end_to_end
+alias earley_lm_end_to_end := Genlm.earley_lm_end_to_end
+/-- the name-freshness hypotheses of the second normal-form conversion can always be met -/
+alias prefix_grammar_names_fresh := Genlm.cnfNamesK_prefix_E10
 end Genlm.Props.C04
